@@ -236,3 +236,12 @@ impl Z80 {
         bus.pc_callback(self.regs.get_pc());
     }
 }
+
+/// Verification-only access points (deterministic simulation harness in /verif).
+#[cfg(rustzx_verif)]
+impl Z80 {
+    /// True when a DD/FD/ED prefix byte has been consumed and awaits its opcode
+    pub fn verif_prefix_pending(&self) -> bool {
+        self.active_prefix != Prefix::None
+    }
+}
